@@ -20,13 +20,17 @@
    whole (c), remove_half_leaf and replace_node (d), the fix_remove loop = the functional balL / balR chain and
    tree_crtp_struct::remove as a whole (e), histories of insertions AND removals, transfer of the C06 link-consistency /
    colouring / order theorems to the heap.
-   NOT PROVED (compared only, by the second correspondence run of comp/rb): tree_order_struct::insert(before, node) (its
-   descent; it ends in the proved insert_left / insert_right / fix_insert), and the annotation VALUES written by
-   aggregate_node / aggregate_path (proved: they leave the hooks alone and terminate) — see the _partial theorem at the end. *)
+   Also proved: tree_order_struct::insert(before, node) refines insert_before (C06_ptr_insert_before_refines,
+   C06_ptr_order_history), and the ANNOTATION heap: for aggregators whose "changed?" test reflects equality and whose
+   aggregate is invariant under rotation ([agg_ok]; the C++ does not re-aggregate ancestors after a rotation, so for other
+   aggregates the real code does not maintain the annotations either) the values written by aggregate_node / aggregate_path
+   WITH its early stop are exactly the annotations of the functional result (C06_ptr_*_annot; interval instance in
+   Properties_C07_ptr.v).  Nothing of rbtree.hpp is left compared-only. *)
 From Coq Require Import NArith List Bool Lia PeanoNat Sorted.
-From FV Require Import Rb.RbModel Rb.RbInorder Rb.RbInvariant Rb.RbLayout Rb.RbHistory Rb.RbPtr Rb.RbPtrBase
+From FV Require Import Rb.RbModel Rb.RbInorder Rb.RbInvariant Rb.RbLayout Rb.RbHistory Rb.RbPtr Rb.RbPtrBase Props.Properties_C06
   Rb.RbPtrRefineRot Rb.RbPtrRefineIns Rb.RbPtrRefineFix Rb.RbPtrRefineInsert Rb.RbPtrRemF Rb.RbPtrRefineRem
-  Rb.RbPtrRefineUnlink Rb.RbPtrRefineReplace Rb.RbPtrRefineRemove Rb.RbPtrRefineTop Rb.RbPtrHistory.
+  Rb.RbPtrRefineUnlink Rb.RbPtrRefineReplace Rb.RbPtrRefineRemove Rb.RbPtrRefineTop Rb.RbPtrHistory Rb.RbAnnot
+  Rb.RbPtrAnnot Rb.RbPtrAnnotRot Rb.RbPtrAnnotLoops Rb.RbPtrRefineAttach Rb.RbPtrRefineOrder.
 Import ListNotations.
 
 (* the two forms of the representation predicate agree *)
@@ -155,7 +159,10 @@ Theorem C06_ptr_remove_half_leaf :
     reprs elt annot id_of None s (plug ctx (hl elt side c ch x a)) ->
     (snd (half c ch) = true -> rem_ok elt ctx) -> length ctx + 2 < fuel ->
     exists s', remove_half_leaf agg aeqb ek fuel s (id_of x) (root_id id_of ch) = POk s'
-               /\ reprs elt annot id_of None s' (fst (del_up ctx (half c ch))).
+               /\ reprs elt annot id_of None s' (fst (del_up ctx (half c ch)))
+               /\ (agg_ok agg aeqb -> tkeys elt id_of ek (plug ctx (hl elt side c ch x a)) ->
+                   ainv elt annot id_of agg (p_annots s) (plug ctx (hl elt side c ch x a)) ->
+                   ainv elt annot id_of agg (p_annots s') (fst (del_up ctx (half c ch)))).
 Proof. exact remove_half_leaf_ok. Qed.
 
 (* (d) replace_node(node, replacement): a non-member takes the member's place in tree and list; the member is reset *)
@@ -164,7 +171,10 @@ Theorem C06_ptr_replace_node :
     NoDup (id_of xm :: map id_of (inorder (plug ctx (T c l x a r)))) ->
     reprs elt annot id_of None s (plug ctx (T c l x a r)) -> length ctx <= fuel ->
     exists s', replace_node agg aeqb ek fuel s (id_of x) (id_of xm) = POk s'
-               /\ reprs elt annot id_of None s' (plug ctx (T c l xm tt r)).
+               /\ reprs elt annot id_of None s' (plug ctx (T c l xm tt r))
+               /\ (agg_ok agg aeqb -> ek (id_of xm) = xm -> tkeys elt id_of ek (plug ctx (T c l x a r)) ->
+                   ainv elt annot id_of agg (p_annots s) (plug ctx (T c l x a r)) ->
+                   ainv elt annot id_of agg (p_annots s') (plug ctx (T c l xm tt r))).
 Proof. exact replace_node_ok. Qed.
 
 (* tree_crtp_struct::remove: for every red-black tree t (any annotation), every member i, every heap that represents t:
@@ -245,24 +255,118 @@ Section C06_ptr_transfer.
   Qed.
 End C06_ptr_transfer.
 
-(* FULL STATEMENTS NOT PROVED:
-   (1) Theorem C06_ptr_insert_before_refines :
-         forall elt annot id_of agg aeqb ek (b : option N) (x : elt) (t : tree elt annot) (s : pstate annot) fuel,
-           NoDup (id_of x :: map id_of (inorder t)) -> rb t -> (forall i, b = Some i -> In i (map id_of (inorder t))) ->
-           repr elt annot id_of s t -> height t < fuel ->
-           exists s', p_insert_before agg aeqb ek fuel s b (id_of x) = POk s'
-                      /\ repr elt annot id_of s' (insert_before id_of agg b x t).
-       (the rightmost descent of tree_order_struct::insert; everything after the descent is C06_ptr_insert_left_links /
-        right_links / fix_insert, which are proved for every context).
-   (2) the annotation heap: forall i member of t, p_annots s' i = the annotation stored at i in the functional result
-       (needs ann_ok t and the soundness of aggregate_path's early stop, C07_early_stop_sound).
-   What is proved of both is the part they share with C06_ptr_insert_refines: *)
-Theorem C06_ptr_order_and_annotations_partial :
-  forall (elt annot : Type) (id_of : elt -> N) agg aeqb (ek : N -> elt) sk ctx rid fuel (s : pstate annot),
-    cinv id_of sk (p_hooks s) ctx rid -> length ctx <= fuel ->
-    exists s', aggregate_path agg aeqb ek fuel s (cpar id_of ctx) = POk s'
-               /\ p_hooks s' = p_hooks s /\ p_root s' = p_root s.
-Proof. exact aggregate_path_ok. Qed.
+(* ================= the order variant (frg::rbtree_order) ================= *)
+(* tree_order_struct::insert(before, node): the rightmost descent + insert_left / insert_right + fix_insert refine
+   [insert_before] for every red-black tree, fuel height+1 (hooks: any aggregator; annotation heap: agg_ok) *)
+Theorem C06_ptr_insert_before_refines :
+  forall (elt annot : Type) (id_of : elt -> N) (less : elt -> elt -> bool) agg aeqb (ek : N -> elt)
+         (before : option N) (x : elt) (t : tree elt annot) (s : pstate annot) (fuel : nat),
+    NoDup (id_of x :: map id_of (inorder t)) -> rb t -> (forall b, before = Some b -> In b (map id_of (inorder t))) ->
+    repr elt annot id_of s t -> height t < fuel ->
+    exists s', p_insert_before agg aeqb ek fuel s before (id_of x) = POk s'
+               /\ repr elt annot id_of s' (insert_before id_of agg before x t)
+               /\ NoDup (map id_of (inorder (insert_before id_of agg before x t)))
+               /\ (agg_ok agg aeqb -> ann_ok agg t -> ek (id_of x) = x -> keys_ok elt annot id_of ek t ->
+                   areq id_of (p_annots s) t -> areq id_of (p_annots s') (insert_before id_of agg before x t)).
+Proof. exact p_insert_before_refines. Qed.
+
+(* any valid history of insert(before, x) / remove on the pointer level; with C06_order_history's precondition the
+   in-order walk over the REAL hooks is the list specification (x immediately before `before`, last when null) *)
+Theorem C06_ptr_order_history :
+  forall (ops : list (oop pelt)) (ek0 : N -> pelt) (fuel : nat),
+    oops_ok pid [] ops -> 2 * Nat.log2 (length ops + 1) + 2 < fuel ->
+    exists (s' : ppstate) ek',
+      p_orun pelt unit pid pagg paeqb fuel ops pp_empty ek0 = POk (s', ek')
+      /\ let t : ptree := fold_left (rbo_step pid pagg) ops E in
+         inorder t = fold_left (olist_step pid) ops []
+         /\ rb t /\ height t <= 2 * Nat.log2 (size t + 1)
+         /\ walk_succ (p_hooks s') (size t) (option_map pid (first t)) = map pid (fold_left (olist_step pid) ops [])
+         /\ p_root s' = root_id pid t
+         /\ ptr_consistent pelt unit pid (p_hooks s') t.
+Proof.
+  intros ops ek0 fuel Hok Hf.
+  assert (Hto : toops_ok pelt unit pid pagg E ops).
+  { apply (oops_ok_toops pelt unit pid pagg ops E []); [reflexivity|constructor|exact Hok]. }
+  destruct (p_orun_refines pelt unit pid (pless N.ltb) pagg paeqb ops E pp_empty ek0 fuel Hto (rb_E_ok pelt unit) (NoDup_nil _))
+    as (s' & ek' & A & B & C & D).
+  - apply repr_empty.
+  - cbn [size]. replace (length ops + 0 + 1) with (length ops + 1) by lia. exact Hf.
+  - exists s', ek'. split; [exact A|]. cbv zeta.
+    destruct (order_history_all pelt unit pid pagg ops Hok) as (H1 & H2 & H3 & H4 & _).
+    destruct (repr_ptr_consistent pelt unit pid s' _ D B) as [F G].
+    split; [exact H1|]. split; [exact H3|]. split; [exact H4|]. split; [rewrite <- H1; apply F|]. split; [exact G|exact F].
+Qed.
+
+(* ================= the annotation heap ================= *)
+(* aggregate_path WITH its early stop: started at the innermost frame of a context that is consistent everywhere except
+   at that frame, it re-establishes consistency of the whole context and touches only annotations of frame nodes *)
+Theorem C06_ptr_aggregate_path_annot :
+  forall (elt annot : Type) (id_of : elt -> N) agg aeqb (ek : N -> elt),
+    (forall a b, aeqb a b = true <-> a = b) ->
+    forall sk ctx L rid fuel (s : pstate annot),
+      NoDup (cbefore id_of ctx ++ L ++ cafter id_of ctx) -> (forall i, rid = Some i -> In i L) ->
+      cinv id_of sk (p_hooks s) ctx rid -> ckeys elt id_of ek ctx -> acopen elt annot id_of agg (p_annots s) ctx ->
+      length ctx <= fuel ->
+      exists s', aggregate_path agg aeqb ek fuel s (cpar id_of ctx) = POk s'
+                 /\ p_hooks s' = p_hooks s /\ p_root s' = p_root s
+                 /\ acinv elt annot id_of agg (p_annots s') ctx (option_map (p_annots s) rid)
+                 /\ (forall j, ~ In j (cnodes elt id_of ctx) -> p_annots s' j = p_annots s j).
+Proof. exact aggregate_path_annots. Qed.
+
+(* a rotation + aggregate_node(u); aggregate_node(n) keeps a consistent annotation heap consistent (rotation-invariant agg) *)
+Theorem C06_ptr_rotateLeft_annot :
+  forall (elt annot : Type) (id_of : elt -> N) agg aeqb (ek : N -> elt),
+    (forall a b, aeqb a b = true <-> a = b) ->
+    (forall u n (A B C : option annot), agg n (Some (agg u A B)) C = agg u A (Some (agg n B C))) ->
+    forall ctx cu xl xu a1 cn v xn a2 y (s s' : pstate annot),
+      NoDup (map id_of (inorder (plug ctx (T cu xl xu a1 (T cn v xn a2 y))))) ->
+      treeSs elt annot id_of None s (plug ctx (T cu xl xu a1 (T cn v xn a2 y))) ->
+      ek (id_of xu) = xu -> ek (id_of xn) = xn ->
+      ainv elt annot id_of agg (p_annots s) (plug ctx (T cu xl xu a1 (T cn v xn a2 y))) ->
+      rotateLeft agg aeqb ek s (id_of xn) = POk s' ->
+      treeSs elt annot id_of None s' (plug ctx (T cn (T cu xl xu tt v) xn tt y))
+      /\ ainv elt annot id_of agg (p_annots s') (plug ctx (T cn (T cu xl xu tt v) xn tt y)).
+Proof. exact rotateLeft_ainv. Qed.
+
+(* insert / remove INCLUDING the annotation heap: [repr_a s t] = repr s t and every member's stored annotation is the
+   one t carries; the result is repr_a of the functional result, whose annotations are [mk]-recomputed on the whole path *)
+Theorem C06_ptr_insert_refines_annot :
+  forall (elt annot : Type) (id_of : elt -> N) (less : elt -> elt -> bool) agg aeqb (ek : N -> elt)
+         (x : elt) (t : tree elt annot) (s : pstate annot) (fuel : nat),
+    agg_ok agg aeqb -> ann_ok agg t ->
+    NoDup (id_of x :: map id_of (inorder t)) -> rb t -> ek (id_of x) = x -> keys_ok elt annot id_of ek t ->
+    repr_a elt annot id_of s t -> height t < fuel ->
+    exists s', p_insert less agg aeqb ek fuel s (id_of x) = POk s'
+               /\ repr_a elt annot id_of s' (insert less agg x t)
+               /\ NoDup (map id_of (inorder (insert less agg x t))).
+Proof. exact p_insert_refines_a. Qed.
+
+Theorem C06_ptr_remove_refines_annot :
+  forall (elt annot : Type) (id_of : elt -> N) (less : elt -> elt -> bool) agg aeqb (ek : N -> elt)
+         (i : N) (t : tree elt annot) (s : pstate annot) (fuel : nat),
+    agg_ok agg aeqb -> ann_ok agg t -> keys_ok elt annot id_of ek t ->
+    NoDup (map id_of (inorder t)) -> rb t -> In i (map id_of (inorder t)) -> repr_a elt annot id_of s t ->
+    2 * Nat.log2 (size t + 1) + 2 < fuel ->
+    exists s', p_remove agg aeqb ek fuel s i = POk s'
+               /\ repr_a elt annot id_of s' (remove id_of agg i t)
+               /\ NoDup (map id_of (inorder (remove id_of agg i t))).
+Proof. exact p_remove_refines_a. Qed.
+
+Theorem C06_ptr_history_annot :
+  forall (elt annot : Type) (id_of : elt -> N) (less : elt -> elt -> bool) agg aeqb
+         (ops : list (op elt)) (a0 : annot) (ek0 : N -> elt) (fuel : nat),
+    agg_ok agg aeqb -> tops_ok elt annot id_of less agg E ops -> 2 * Nat.log2 (length ops + 1) + 2 < fuel ->
+    let t := fold_left (rb_step id_of less agg) ops E in
+    exists s' ek', p_run elt annot id_of less agg aeqb fuel ops (p_empty a0) ek0 = POk (s', ek')
+                   /\ repr_a elt annot id_of s' t /\ ann_ok agg t /\ rb t /\ NoDup (map id_of (inorder t))
+                   /\ keys_ok elt annot id_of ek' t.
+Proof.
+  intros elt annot id_of less agg aeqb ops a0 ek0 fuel Ao Hok Hf t.
+  apply (p_run_refines_a elt annot id_of less agg aeqb ops E (p_empty a0) ek0 fuel Ao I Hok (rb_E_ok elt annot) (NoDup_nil _)).
+  - intros y [].
+  - split; [apply repr_empty|exact I].
+  - cbn [size]. replace (length ops + 0 + 1) with (length ops + 1) by lia. exact Hf.
+Qed.
 
 Print Assumptions C06_ptr_repr_forms.
 Print Assumptions C06_ptr_zipper_complete.
@@ -282,7 +386,13 @@ Print Assumptions C06_ptr_fix_remove_functional.
 Print Assumptions C06_ptr_remove_half_leaf.
 Print Assumptions C06_ptr_replace_node.
 Print Assumptions C06_ptr_remove_refines.
-Print Assumptions C06_ptr_order_and_annotations_partial.
+Print Assumptions C06_ptr_insert_before_refines.
+Print Assumptions C06_ptr_order_history.
+Print Assumptions C06_ptr_aggregate_path_annot.
+Print Assumptions C06_ptr_rotateLeft_annot.
+Print Assumptions C06_ptr_insert_refines_annot.
+Print Assumptions C06_ptr_remove_refines_annot.
+Print Assumptions C06_ptr_history_annot.
 
 (* ---- non-vacuity: concrete scripts through BOTH models by vm_compute *)
 Definition ptr_demo_xs : list pelt :=
@@ -341,3 +451,35 @@ Example C06_ptr_demo_rotate :
   | _ => False
   end.
 Proof. vm_compute. eexists [FR _ _ _]. vm_compute. split; reflexivity. Qed.
+
+(* the order variant through p_insert_before / p_remove: Properties_C06.demo_oops plus removals *)
+Definition ptr_demo_oops : list (oop pelt) :=
+  [OInsBefore None (0, 0); OInsBefore (Some 0) (0, 1); OInsBefore None (0, 2); OInsBefore (Some 2) (0, 3);
+   OORem 0; OInsBefore (Some 1) (0, 0); OInsBefore (Some 3) (0, 4); OInsBefore None (0, 5); OORem 1; OInsBefore (Some 0) (0, 1);
+   OInsBefore (Some 5) (0, 6)]%N.
+Example C06_ptr_demo_order :
+  oops_ok pid [] ptr_demo_oops /\ 2 * Nat.log2 (length ptr_demo_oops + 1) + 2 < 12
+  /\ match p_orun pelt unit pid pagg paeqb 12 ptr_demo_oops pp_empty ptr_ek0 with
+     | POk (s', _) =>
+         let t : ptree := fold_left (rbo_step pid pagg) ptr_demo_oops E in
+         map (fun i => links_of (p_hooks s' i)) ptr_pool = map (fun i => links_of (layout pid t i)) ptr_pool
+         /\ walk_succ (p_hooks s') 10 (option_map pid (first t)) = [1; 0; 4; 3; 2; 6; 5]%N
+     | _ => False
+     end.
+Proof. split; [vm_compute; repeat split; intuition discriminate|]. split; [vm_compute; lia|]. vm_compute. split; reflexivity. Qed.
+
+(* a non-trivial aggregate (subtree size: rotation-invariant, N.eqb reflects equality) through the pointer model with the
+   early stop: after the 15-op history every member's annotation field equals the functional model's *)
+Example C06_ptr_demo_annot :
+  agg_ok size_agg N.eqb
+  /\ match p_run pelt N pid (pless N.ltb) size_agg N.eqb 12 ptr_demo_ops (p_empty 0%N) ptr_ek0 with
+     | POk (s', _) =>
+         let t := fold_left (rb_step pid (pless N.ltb) size_agg) ptr_demo_ops E in
+         areq pid (p_annots s') t /\ option_map (p_annots s') (p_root s') = Some 5%N
+     | _ => False
+     end.
+Proof.
+  split.
+  - split; [intros a b; apply N.eqb_eq|]. intros u n A B C. unfold size_agg. destruct A, B, C; lia.
+  - vm_compute. intuition reflexivity.
+Qed.
